@@ -342,20 +342,26 @@ def r_dispatch(idx, rep, rule="R-DISPATCH"):
     gd = idx.func(N2 + "::get_data_from_collider")
     sel = idx.func(N2 + "::select_support")
     written = {}   # code -> (Type, data expr, body)
-    body = gd.node.body
-    for i, st in enumerate(body):
-        tt = None
-        blk = None
-        if isinstance(st, ast.If):
-            tt, blk = _type_test(st.test), st.body
-        elif isinstance(st, ast.Assert):
-            tt, blk = _type_test(st.test), body[i + 1:]
-        if tt and blk:
-            rets = [s for s in blk if isinstance(s, ast.Return) and isinstance(s.value, ast.Tuple)]
-            if rets:
-                code = const(rets[0].value.elts[1])
-                loc = {s.targets[0].id: s.value for s in blk if isinstance(s, ast.Assign) and isinstance(s.targets[0], ast.Name)}
-                written[code] = (tt[1], rets[0].value.elts[0], loc)
+    # one shape for `if T: return data, code` sequences, if/elif/else chains and the single-exit form with a result variable
+    from ..core.inline import push_returns
+    gd_node = push_returns(gd.node)
+
+    def collect(body):
+        for i, st in enumerate(body):
+            tt = None
+            blk = None
+            if isinstance(st, ast.If):
+                tt, blk = _type_test(st.test), st.body
+                collect(st.orelse)
+            elif isinstance(st, ast.Assert):
+                tt, blk = _type_test(st.test), body[i + 1:]
+            if tt and blk:
+                rets = [s for s in blk if isinstance(s, ast.Return) and isinstance(s.value, ast.Tuple)]
+                if rets:
+                    code = const(rets[0].value.elts[1])
+                    loc = {s.targets[0].id: s.value for s in blk if isinstance(s, ast.Assign) and isinstance(s.targets[0], ast.Name)}
+                    written[code] = (tt[1], rets[0].value.elts[0], loc)
+    collect(gd_node.body)
     read = {}
     sb = sel.node.body
     tparam = sel.params()[1]
